@@ -104,7 +104,7 @@ pub struct Cell {
     /// content of the write level (if any) followed by each read level
     pub contents: Vec<Content>,
     pub op: MOp,
-    /// 0 value C, 1 value A, 2 value B, 3 NotFound, 4 other error
+    /// 0 value C, 1 value A, 2 value B, 3 NotFound, 4 other error, 5 an error carrying the OS errno ESTALE
     pub pop: u8,
     /// 0 none, 1 counting byte-equality, 2 panicking byte-equality, 3 library byte_equality_checker
     pub checker: u8,
@@ -125,7 +125,7 @@ impl Cell {
             "checker": self.checker,
             "umask": self.umask,
             "auto_sync": self.auto_sync,
-            "size": match self.size { Size::Empty => 0, Size::One => 1, Size::Five => 5, Size::Chunks => 3 },
+            "size": match self.size { Size::Empty => 0, Size::One => 1, Size::Five => 5, Size::Chunks => 3, Size::Large => 12 },
         })
     }
     pub fn from_json(v: &Value) -> Cell {
@@ -143,6 +143,7 @@ impl Cell {
                 0 => Size::Empty,
                 5 => Size::Five,
                 3 => Size::Chunks,
+                12 => Size::Large,
                 _ => Size::One,
             },
         }
@@ -156,6 +157,7 @@ impl Cell {
             1 => Pop::Value(val_a()),
             2 => Pop::Value(val_b()),
             3 => Pop::NotFound,
+            5 => Pop::StaleErr,
             _ => Pop::OtherErr,
         }
     }
@@ -465,7 +467,7 @@ pub fn model(cell: &Cell) -> Model {
                                         // "return NotFound to skip the comparison without failing the whole call":
                                         // only the comparison is skipped; the judge's verdict (Promote) still applies
                                     }
-                                    Pop::OtherErr | Pop::PartialErr(_) => {
+                                    Pop::OtherErr | Pop::StaleErr | Pop::PartialErr(_) => {
                                         m.result = Expect::AnyErr;
                                         promote = false;
                                     }
@@ -495,7 +497,7 @@ pub fn model(cell: &Cell) -> Model {
                                     }
                                 }
                                 Pop::NotFound | Pop::PartialNotFound(_) => m.result = Expect::NotFoundErr,
-                                Pop::OtherErr | Pop::PartialErr(_) => m.result = Expect::AnyErr,
+                                Pop::OtherErr | Pop::StaleErr | Pop::PartialErr(_) => m.result = Expect::AnyErr,
                             }
                         }
                     }
@@ -512,7 +514,7 @@ pub fn model(cell: &Cell) -> Model {
                             }
                         }
                         Pop::NotFound | Pop::PartialNotFound(_) => m.result = Expect::NotFoundErr,
-                        Pop::OtherErr | Pop::PartialErr(_) => m.result = Expect::AnyErr,
+                        Pop::OtherErr | Pop::StaleErr | Pop::PartialErr(_) => m.result = Expect::AnyErr,
                     }
                 }
             }
